@@ -72,7 +72,7 @@ def pelem(e):
     if "dc" in e:
         return ("dc", e["dc"])
     if "ix" in e:
-        return ("ix",)
+        return ("ix", e["ix"])
     if "ci" in e:
         return ("ci", tuple(e["ci"]))
     if "sub" in e:
@@ -383,6 +383,8 @@ class Flow:
             s.roots.add(("call", bb, name, tuple(rest)))
             return
         tr, strip = transparent(t)
+        if tr and t["args"] and name.endswith("FromResidual::from_residual") and rest and rest[0][0] == "dc" and rest[0][1] in ("Ok", "Some"):
+            return  # a propagated error/None cannot supply the success payload that is asked for
         if tr and t["args"]:
             rr = list(rest)
             if strip:
